@@ -40,6 +40,29 @@ class KSimpleNoLock(SimpleKey[str]):
 
 
 @dataclass(frozen=True)
+class KSimpleDefaultNoLock(SimpleKey[str]):
+    """may be read while still empty (returns the default) and extended afterwards: the cached default must not survive the add"""
+
+    empty_valid = True
+    default_value = "dflt"
+    lock_on_get = False
+
+
+@dataclass(frozen=True)
+class KSimpleDefaultNoLockNoCache(SimpleKey[str]):
+    empty_valid = True
+    default_value = "dflt"
+    lock_on_get = False
+    cache = False
+
+
+@dataclass(frozen=True)
+class KListEmptyValidNoLock(ListKey[str]):
+    lock_on_get = False
+    empty_valid = True
+
+
+@dataclass(frozen=True)
 class KList(ListKey[str]):
     pass
 
@@ -66,7 +89,8 @@ class KUnifier(UnifierKey, unifier=StubUnifier):
     lock_on_get = False
 
 
-KINDS = {"simple": KSimple, "simple_default": KSimpleDefault, "simple_nolock": KSimpleNoLock, "list": KList, "list_nolock": KListNoLock,
+KINDS = {"simple": KSimple, "simple_default": KSimpleDefault, "simple_nolock": KSimpleNoLock, "simple_default_nolock": KSimpleDefaultNoLock,
+         "simple_default_nolock_nocache": KSimpleDefaultNoLockNoCache, "list": KList, "list_nolock": KListNoLock, "list_empty_valid_nolock": KListEmptyValidNoLock,
          "list_nocache": KListNoCache, "unifier": KUnifier}
 OPS = ["add1", "add2", "get", "opt"]
 
